@@ -343,9 +343,20 @@ func (f *flow) Start(ctx context.Context) {
 											f.retry.Step()
 											goto await
 										}
+										// the token ends here: say so, like every other way a token ends
+										// (the flow tracker of the inclusive gateways keeps a token it has
+										// seen until its termination is traced)
+										f.tracer.Send(TerminationTrace{
+											FlowId: f.Id(),
+											Source: f.current.Element(),
+										})
 										return
 									case SkipMode:
 									case ExitMode:
+										f.tracer.Send(TerminationTrace{
+											FlowId: f.Id(),
+											Source: f.current.Element(),
+										})
 										return
 									}
 								case <-ctx.Done():
